@@ -901,7 +901,17 @@ func genScenario(r *hc.RNG, c *hc.Ctx, i int, saves int) scenario {
 	if s.raw {
 		s.old = r.Bytes(hc.Pick(r, 1, 7, 300))
 		for k := 0; k < saves; k++ {
-			s.news = append(s.news, r.Bytes(hc.Pick(r, 0, 1, 2, 64, 511, 600)))
+			nb := r.Bytes(hc.Pick(r, 0, 1, 2, 64, 511, 600))
+			if saves > 1 { // concurrent savers: contents must be told apart (and from the old one)
+				for dup := true; dup; {
+					nb = r.Bytes(hc.Pick(r, 1, 2, 64, 511, 600))
+					dup = bytes.Equal(nb, s.old)
+					for _, x := range s.news {
+						dup = dup || bytes.Equal(nb, x)
+					}
+				}
+			}
+			s.news = append(s.news, nb)
 			s.newDatas = append(s.newDatas, nil)
 		}
 		c.Count("data.raw-bytes")
@@ -1359,7 +1369,7 @@ func run(c *hc.Ctx) error {
 	c.PartialNote("the crash model (which un-synced effects a power loss may drop) is an assumption; only the process-crash semantics is compared with the real kernel by replaying every trace prefix, and rename atomicity w.r.t. concurrent readers is observed directly")
 	c.PartialNote("power-loss states are produced by the Lean model from the observed trace and then loaded with session.Loader; they cannot be produced by the kernel in a test")
 	c.PartialNote("failing system calls are simulated by strace fault injection (the call is not executed); a failing close therefore leaves the descriptor open in the kernel, unlike a real EIO on close")
-	nCases := c.N(10, 120)
+	nCases := c.N(10, 70)
 	var lastErr error
 	note := func(err error) error {
 		if err == nil {
@@ -1377,7 +1387,7 @@ func run(c *hc.Ctx) error {
 			return err
 		}
 	}
-	for i := 0; i < c.N(3, 40); i++ {
+	for i := 0; i < c.N(3, 25); i++ {
 		sc := genScenario(r, c, 100+i, hc.Pick(r, 2, 2, 3))
 		if err := note(runMultiCase(c, r.Fork(), base, self, i, sc)); err != nil {
 			return err
@@ -1461,7 +1471,7 @@ func runStoreCase(c *hc.Ctx, r *hc.RNG, base, self string, idx int, sc scenario)
 	}
 
 	// ---- the same save with one of its system calls failing
-	nInj := c.N(2, 4)
+	nInj := c.N(2, 3)
 	for _, k := range permOf(r, len(rawTr), nInj) {
 		target := rawTr[k]
 		errnos, ok := injectErrnos[target.sys]
@@ -1645,8 +1655,8 @@ func runMultiCase(c *hc.Ctx, r *hc.RNG, base, self string, idx int, sc scenario)
 		}
 	}
 	// (two savers may be given equal contents by the generator only with negligible probability)
-	if c.Compare("segments "+full, fmt.Sprintf("%d durable atomic replacements, one per content", len(sc.news)),
-		map[bool]string{true: fmt.Sprintf("%d durable atomic replacements, one per content", len(sc.news)), false: "segments: " + segs}[okSegs]) {
+	if c.Compare("segments "+full, fmt.Sprintf("%d atomic replacements, one per content", len(sc.news)),
+		map[bool]string{true: fmt.Sprintf("%d atomic replacements, one per content", len(sc.news)), false: "segments: " + segs}[okSegs]) {
 		c.Res.TracesValidated++
 	}
 	if okSegs {
